@@ -500,6 +500,10 @@ func (c *collector) getName(m metricdata.Metrics, typ *dto.MetricType) string {
 		// Remove the _total suffix here, as we will re-add the total suffix
 		// later, and it needs to come after the unit suffix.
 		name = strings.TrimSuffix(name, counterSuffix)
+		if name == "" {
+			// The instrument is named exactly "total": keep the name, do not index an empty string below.
+			name = counterSuffix
+		}
 		// If the last character is an underscore, or would be converted to an underscore, trim it from the name.
 		// an underscore will be added back in later.
 		if convertsToUnderscore(rune(name[len(name)-1])) {
